@@ -145,6 +145,8 @@ def run(ctx):
             cbad.append((-1, "model sendmail_args differs from the documented argument vector"))
     # ---- SMTP: the envelope on the wire is the envelope given - one RCPT per entry, in order, repeats and case variants included
     env_cases = [c for c in cases if len(c[2]) < 5000][:25] + [c for c in cases[-4:] if len(c[2]) < 5000]
+    # (a non-ASCII address together with 8-bit content needs both MAIL parameters: the two clients must write them alike)
+    env_cases += [(b"\xc3\xa9@x.example", [b"b@y.org"], b"caf\xc3\xa9\r\n"), (None, [b"\xc3\xbc@z.example", b"c@z.org"], b"\xff\xfe\r\n"), (b"a@x.org", [b"b@y.org"], b"8bit \xe2\x82\xac\r\n"), (b"\xc3\xa9@x.example", [b"b@y.org"], b"ascii\r\n")]
     escs = []
     for fr, to, msg in env_cases:
         for fl in ("sync", "tokio"):
@@ -162,6 +164,11 @@ def run(ctx):
         want = [b"MAIL FROM:<" + (fr or b"") + b">"] + [b"RCPT TO:<" + t + b">" for t in to]
         if got != want:
             obad.append((-1, "SMTP (%s): the envelope on the wire is %r, the envelope given is %r" % (sc["flavor"], got, want)))
+        if sc["flavor"] == "sync":
+            sync_Rs = Rs
+        elif Rs[:4 + len(to)] != sync_Rs[:4 + len(to)]:        # EHLO, MAIL, every RCPT, DATA, the content (what follows is the transport being dropped)
+            k = next((i for i, (a, b) in enumerate(zip(Rs, sync_Rs)) if a != b), min(len(Rs), len(sync_Rs)))
+            obad.append((-1, "SMTP: the sync and the tokio client write different dialogues for the same envelope and message: unit %d is %r (sync) / %r (tokio)" % (k, (sync_Rs + [None])[k] and sync_Rs[k][:80], (Rs + [None])[k] and Rs[k][:80])))
     # ---- SMTP: sync and tokio clients agree with each other (and the model) on the fault table
     scs = []
     for nrcpt in (1, 2):
